@@ -295,10 +295,14 @@ class FcpV2Transformer(Transformer):
 
     def unsigned_type(self, args: List[str]) -> Result[UnsignedType, FcpError]:
         """Parse an unsigned type."""
+        if int(str(args[0])[1:]) == 0:
+            return error(f"Type '{args[0]}' has no bits.")
         return Ok(UnsignedType(str(args[0])))
 
     def signed_type(self, args: List[str]) -> Result[SignedType, FcpError]:
         """Parse a signed type."""
+        if int(str(args[0])[1:]) == 0:
+            return error(f"Type '{args[0]}' has no bits.")
         return Ok(SignedType(str(args[0])))
 
     def float_type(self, args: List[str]) -> Result[FloatType, FcpError]:
@@ -316,6 +320,9 @@ class FcpV2Transformer(Transformer):
     @catch
     def array_type(self, args: List[str]) -> Result[ArrayType, FcpError]:
         """Parse an array_type node of the fcp AST."""
+        if not isinstance(args[1], int) or args[1] < 1:
+            return error(f"Array size must be a positive integer, not {args[1]}.")
+
         return Ok(
             ArrayType(
                 args[0]
